@@ -1,0 +1,59 @@
+//go:build verif
+
+package p2p
+
+// Thin exported wrappers around unexported RLPx functions, compiled only with
+// the build tag "verif". They exist so that the runtime monitors under /verif
+// can drive the genuine encryption handshake and the genuine frame
+// reader/writer directly. No logic lives here.
+
+import (
+	"crypto/ecdsa"
+	"hash"
+	"io"
+
+	"github.com/zenon-network/go-zenon/p2p/discover"
+)
+
+// SecretsForVerif mirrors the unexported secrets struct field by field.
+type SecretsForVerif struct {
+	RemoteID              discover.NodeID
+	AES, MAC              []byte
+	EgressMAC, IngressMAC hash.Hash
+	Token                 []byte
+}
+
+func secretsToVerif(s secrets) SecretsForVerif {
+	return SecretsForVerif{RemoteID: s.RemoteID, AES: s.AES, MAC: s.MAC, EgressMAC: s.EgressMAC, IngressMAC: s.IngressMAC, Token: s.Token}
+}
+
+func secretsFromVerif(s SecretsForVerif) secrets {
+	return secrets{RemoteID: s.RemoteID, AES: s.AES, MAC: s.MAC, EgressMAC: s.EgressMAC, IngressMAC: s.IngressMAC, Token: s.Token}
+}
+
+// NewRLPXFrameRWForVerif wraps newRLPXFrameRW.
+func NewRLPXFrameRWForVerif(conn io.ReadWriter, s SecretsForVerif) MsgReadWriter {
+	return newRLPXFrameRW(conn, secretsFromVerif(s))
+}
+
+// InitiatorEncHandshakeForVerif wraps initiatorEncHandshake.
+func InitiatorEncHandshakeForVerif(conn io.ReadWriter, prv *ecdsa.PrivateKey, remoteID discover.NodeID, token []byte) (SecretsForVerif, error) {
+	s, err := initiatorEncHandshake(conn, prv, remoteID, token)
+	return secretsToVerif(s), err
+}
+
+// ReceiverEncHandshakeForVerif wraps receiverEncHandshake.
+func ReceiverEncHandshakeForVerif(conn io.ReadWriter, prv *ecdsa.PrivateKey, token []byte) (SecretsForVerif, error) {
+	s, err := receiverEncHandshake(conn, prv, token)
+	return secretsToVerif(s), err
+}
+
+// Constants of the wire format the monitors need to address bytes of a frame
+// or a handshake message.
+const (
+	EncAuthMsgLenForVerif          = encAuthMsgLen
+	EncAuthRespLenForVerif         = encAuthRespLen
+	BaseProtocolLengthForVerif     = baseProtocolLength
+	BaseProtocolVersionForVerif    = baseProtocolVersion
+	BaseProtocolMaxMsgSizeForVerif = baseProtocolMaxMsgSize
+)
